@@ -183,9 +183,9 @@ def any_decls(tier='quick') -> List[Decl]:
                   aux=[pvn], derives=gview + ['TryFrom'], props=['C01', 'C03', 'C05', 'C07', 'C13']))
     out.append(mk('any_vec_san_pred', 'any', 'Vec<T>', generics='<T: Ord>', generic_args='<T>', sanitizers=[Sanitizer('with', sv)],
                   validators=[Validator('predicate', fn=pv)],
-                  aux=[pvn, svn], derives=gview + ['TryFrom'], props=['C01', 'C03', 'C05', 'C07', 'C13']))
+                  aux=[pvn, svn], derives=[x for x in gview if x != 'Into'] + ['TryFrom'], props=['C01', 'C03', 'C05', 'C07', 'C13']))
     out.append(mk('any_vec_san_nov', 'any', 'Vec<T>', generics='<T: Ord>', generic_args='<T>', sanitizers=[Sanitizer('with', sv)],
-                  aux=[svn], derives=gview + ['From'], props=['C01', 'C03', 'C05', 'C13']))
+                  aux=[svn], derives=[x for x in gview if x != 'Into'] + ['From'], props=['C01', 'C03', 'C05', 'C13']))
     out.append(mk('any_vec_custom', 'any', 'Vec<T>', generics='<T>', generic_args='<T>', custom_validation=vv, custom_error='MyErr',
                   aux=[vvn, 'MyErr'], derives=gview + ['TryFrom'], props=['C01', 'C03', 'C05', 'C07', 'C13']))
     return out
